@@ -1,0 +1,76 @@
+//go:build verif
+
+// Contracts for package reverseproxy, checked by /verif/govc (comment-only file).
+package reverseproxy
+
+//@ -- ghost: header name of an injector; values injectors have produced during this rewrite, per canonical key
+//@ ghostfield iface.hname string
+//@ ghost var produced map[string]set[string]
+
+//@ -- an injected header is either absent or holds exactly one proxy-computed value
+//@ pure func okHeader(h http.Header, k string) bool = !mapHas(h, k) || (len(mapGet(h, k)) == 1 && produced[k][mapGet(h, k)[0]])
+//@ pure func isFwdKey(k string) bool = k == "X-Forwarded-For" || k == "X-Forwarded-Host" || k == "X-Forwarded-Proto"
+//@ pure func noFwdInjectors(f *HTTPHandler) bool = forall j int :: 0 <= j && j < len(f.HeaderInjectors) ==> !isFwdKey(canon(hname(f.HeaderInjectors[j])))
+//@ pure func xffValue(r *httputil.ProxyRequest) string = ite(mapHas(r.In.Header, "X-Forwarded-For") && r.In.Header != nil && len(mapGet(r.In.Header, "X-Forwarded-For")) > 0, joinComma(mapGet(r.In.Header, "X-Forwarded-For")) ++ ", " ++ hostOf(r.In.RemoteAddr), hostOf(r.In.RemoteAddr))
+
+//@ func HeaderInjector.GetHeaderName :: hj -> result
+//@   trusted
+//@   pure
+//@   ensures result == hname(hj)
+
+//@ -- assumption about injectors (user code): computing a value does not touch the outbound request
+//@ func HeaderInjector.GetHeaderValue :: hj, req -> v, err
+//@   trusted
+//@   assigns produced
+//@   ensures forall k string, x string :: produced[k][x] <==> (old(produced[k][x]) || (err == nil && k == canon(hname(hj)) && x == v))
+
+//@ func (*HTTPHandler).logf
+//@   trusted
+//@   assigns nothing
+
+//@ func (*HTTPHandler).rewriteFunc :: f, r
+//@   props C05,C08,C09
+//@   requires f != nil && r != nil && r.In != nil && r.Out != nil && r.In != r.Out && f.To != nil
+//@   requires r.Out.Header != nil && r.In.Header != r.Out.Header
+//@   requires forall k string, x string :: !produced[k][x]
+//@   ensures [C05:absent-or-computed] forall j int :: 0 <= j && j < len(f.HeaderInjectors) ==> okHeader(r.Out.Header, canon(hname(f.HeaderInjectors[j])))
+//@   ensures [C09:proto] noFwdInjectors(f) ==> mapHas(r.Out.Header, "X-Forwarded-Proto") && mapGet(r.Out.Header, "X-Forwarded-Proto") == seq[string]{ite(r.In.TLS == nil, "http", "https")}
+//@   ensures [C09:host] noFwdInjectors(f) ==> mapHas(r.Out.Header, "X-Forwarded-Host") && mapGet(r.Out.Header, "X-Forwarded-Host") == seq[string]{r.In.Host}
+//@   ensures [C09:for] noFwdInjectors(f) && splitOK(r.In.RemoteAddr) ==> mapHas(r.Out.Header, "X-Forwarded-For") && mapGet(r.Out.Header, "X-Forwarded-For") == seq[string]{xffValue(r)}
+//@   ensures [C08:host] r.Out.Host == ite(f.PreserveHost, r.In.Host, "")
+//@   ensures [C08:other-headers-untouched] forall k string :: !isFwdKey(k) && (forall j int :: 0 <= j && j < len(f.HeaderInjectors) ==> k != canon(hname(f.HeaderInjectors[j]))) ==> (mapHas(r.Out.Header, k) <==> old(mapHas(r.Out.Header, k))) && (mapHas(r.Out.Header, k) ==> mapGet(r.Out.Header, k) == old(mapGet(r.Out.Header, k)))
+//@   loop 1 invariant [bounds] -1 <= rangeindex && rangeindex < len(f.HeaderInjectors) || (rangeindex == -1 && len(f.HeaderInjectors) == 0)
+//@   loop 1 invariant [C05:visited-ok] forall j int :: 0 <= j && j <= rangeindex ==> okHeader(r.Out.Header, canon(hname(f.HeaderInjectors[j])))
+//@   loop 1 invariant [produced-keys] forall k string, x string :: produced[k][x] ==> (exists j int :: 0 <= j && j <= rangeindex && k == canon(hname(f.HeaderInjectors[j])))
+//@   loop 1 invariant [C09:proto] noFwdInjectors(f) ==> mapHas(r.Out.Header, "X-Forwarded-Proto") && mapGet(r.Out.Header, "X-Forwarded-Proto") == seq[string]{ite(r.In.TLS == nil, "http", "https")}
+//@   loop 1 invariant [C09:host] noFwdInjectors(f) ==> mapHas(r.Out.Header, "X-Forwarded-Host") && mapGet(r.Out.Header, "X-Forwarded-Host") == seq[string]{r.In.Host}
+//@   loop 1 invariant [C09:for] noFwdInjectors(f) && splitOK(r.In.RemoteAddr) ==> mapHas(r.Out.Header, "X-Forwarded-For") && mapGet(r.Out.Header, "X-Forwarded-For") == seq[string]{xffValue(r)}
+//@   loop 1 invariant [C08:host] r.Out.Host == ite(f.PreserveHost, r.In.Host, "")
+//@   loop 1 invariant [C08:other-headers-untouched] forall k string :: !isFwdKey(k) && (forall j int :: 0 <= j && j <= rangeindex ==> k != canon(hname(f.HeaderInjectors[j]))) ==> (mapHas(r.Out.Header, k) <==> old(mapHas(r.Out.Header, k))) && (mapHas(r.Out.Header, k) ==> mapGet(r.Out.Header, k) == old(mapGet(r.Out.Header, k)))
+
+//@ -- the probe decision is a pure function of the request (assumption on the user-supplied callback)
+//@ func field HTTPHandler.IsProbeRequest
+//@   trusted
+//@   pure
+
+//@ pure func isProbe(f *HTTPHandler, req *http.Request) bool = f.IsProbeRequest != nil && fcall("IsProbeRequest", f.IsProbeRequest, req)
+
+//@ func (*HTTPHandler).ServeHTTP :: f, w, req
+//@   props C15
+//@   requires f != nil && f.reverseProxy != nil
+//@   assigns statusCodes(w), bodyWritten(w), f.reverseProxy.served
+//@   ensures [C15:probe-answered-locally] isProbe(f, req) ==> statusCodes(w) == old(statusCodes(w)) ++ seq[int]{200} && bodyWritten(w) == old(bodyWritten(w)) ++ "OK" && f.reverseProxy.served == old(f.reverseProxy.served)
+//@   ensures [C15:others-forwarded] !isProbe(f, req) ==> f.reverseProxy.served == old(f.reverseProxy.served) ++ seq[*http.Request]{req} && statusCodes(w) == old(statusCodes(w)) && bodyWritten(w) == old(bodyWritten(w))
+
+//@ func IsKubernetesProbeRequest :: r -> result
+//@   props C15
+//@   requires r != nil
+//@   assigns nothing
+//@   ensures [C15:prefix-only] result <==> hasPrefix(r.userAgent, "kube-probe/")
+
+//@ func NewHTTPHandler :: to, reverseProxy, headerInjectors -> h
+//@   props C15,C08
+//@   requires reverseProxy != nil
+//@   assigns reverseProxy.Rewrite
+//@   ensures [C15:probe-off-by-default] h != nil && fresh(h) && h.IsProbeRequest == nil
+//@   ensures [C08:wiring] h.To == to && h.reverseProxy == reverseProxy && h.HeaderInjectors == headerInjectors && h.PreserveHost == false
